@@ -184,7 +184,7 @@ class GState:
 
 
 class Glyph:
-    __slots__ = ("code", "matrix", "adv", "fontname", "font", "Tfs", "Th", "rise", "fill", "depth", "pen_known", "index")
+    __slots__ = ("code", "matrix", "adv", "fontname", "font", "Tfs", "Th", "rise", "fill", "fill_cs", "depth", "pen_known", "index")
 
     def __repr__(self) -> str:
         return "Glyph(code=%d font=%s depth=%d)" % (self.code, self.fontname, self.depth)
@@ -213,6 +213,7 @@ class TextModel:
             g.font = gs.font
             g.fontname = gs.font.fontname if isinstance(gs.font, FontModel) else UNKNOWN
             g.Tfs, g.Th, g.rise, g.fill, g.depth = gs.Tfs, gs.Th, gs.rise, gs.fill, depth
+            g.fill_cs = gs.fill_cs
             known = gs.pen_known and isinstance(gs.font, FontModel) and UNKNOWN not in (gs.Tfs, gs.Th, gs.Tc, gs.Tw)
             g.pen_known = gs.pen_known
             g.matrix = mul(gs.Tm, gs.ctm)
@@ -258,9 +259,9 @@ class TextModel:
                     if n == '"':
                         gs.Tc = gs.Tw = UNKNOWN
                 elif n in ("g", "rg", "k"):
-                    gs.fill = UNKNOWN
+                    gs.fill = gs.fill_cs = UNKNOWN
                 elif n in ("G", "RG", "K"):
-                    gs.stroke = UNKNOWN
+                    gs.stroke = gs.stroke_cs = UNKNOWN
                 elif n == "cm":
                     pass  # cm has no parameter of its own that a later cm would reset: must be a no-op
                 continue
@@ -323,17 +324,30 @@ class TextModel:
                             tx = -F(el) / 1000 * gs.Tfs * gs.Th
                             gs.Tm = mul(translate(tx, F(0)), gs.Tm)
             elif n == "g":
-                gs.fill = F(a[0])
+                gs.fill, gs.fill_cs = F(a[0]), "DeviceGray"
             elif n == "rg":
-                gs.fill = tuple(F(x) for x in a)
+                gs.fill, gs.fill_cs = tuple(F(x) for x in a), "DeviceRGB"
             elif n == "k":
-                gs.fill = tuple(F(x) for x in a)
+                gs.fill, gs.fill_cs = tuple(F(x) for x in a), "DeviceCMYK"
             elif n == "G":
-                gs.stroke = F(a[0])
+                gs.stroke, gs.stroke_cs = F(a[0]), "DeviceGray"
             elif n == "RG":
-                gs.stroke = tuple(F(x) for x in a)
+                gs.stroke, gs.stroke_cs = tuple(F(x) for x in a), "DeviceRGB"
             elif n == "K":
-                gs.stroke = tuple(F(x) for x in a)
+                gs.stroke, gs.stroke_cs = tuple(F(x) for x in a), "DeviceCMYK"
+            elif n in ("cs", "CS"):
+                # the colour becomes the initial colour of the new space (8.6.8); the value is not asserted until set
+                if n == "cs":
+                    gs.fill_cs, gs.fill = a[0].b.decode("latin-1"), UNKNOWN
+                else:
+                    gs.stroke_cs, gs.stroke = a[0].b.decode("latin-1"), UNKNOWN
+            elif n in ("sc", "scn", "SC", "SCN"):
+                # generated with as many operands as the space named by the cs/CS right before it has components
+                val: Any = F(a[0]) if len(a) == 1 else tuple(F(x) for x in a)
+                if n in ("sc", "scn"):
+                    gs.fill = val
+                else:
+                    gs.stroke = val
             elif n == "Do":
                 form = forms[a[0].b.decode("latin-1")]
                 inner = gs.copy()           # form = q  Matrix cm  <content>  Q
